@@ -23,7 +23,7 @@ def _flavour(sc):
     return "con" if (sum(sc["val"]) + sc["first"] + sc["last"] + sum(sc["failed"])) % 2 else "obj"
 
 
-def build_sort(sc):
+def build_sort(sc, lead=0):
     n = sc["n"]
     val = np.array(sc["val"], dtype=np.float64)
     cfg = {"variables": {"initial_values": [0.0, 0.0]},
@@ -47,6 +47,13 @@ def build_sort(sc):
                                         "realization_filters": [-1, 0]}
         cfg["realization_filters"] = [{"method": "sort-constraint", "options": {"sort": 1, **opts}}]
         col = ("con", 1)
+    if lead:        # configured but unreferenced filters in front of the one in use
+        unused = [{"method": "cvar-objective", "options": {"sort": [0], "percentile": 0.5}},
+                  {"method": "sort-objective", "options": {"sort": [0], "first": 0, "last": 0}}][:lead]
+        cfg["realization_filters"] = unused + cfg["realization_filters"]
+        for sect in ("objectives", "nonlinear_constraints"):
+            if sect in cfg and "realization_filters" in cfg[sect]:
+                cfg[sect]["realization_filters"] = [i + lead if i >= 0 else i for i in cfg[sect]["realization_filters"]]
     return EnOptConfig.model_validate(cfg), objs, cons, col
 
 
@@ -112,9 +119,15 @@ def drive_sort(sc):
     trace.append({**base, "ev": "Sort", "via": "e2e", "outcome": outcome,
                   "w": nums(w) if w is not None else [], "value": num(value)})
     # the same through a combined function + gradient evaluation (what speculative optimizers request)
+    # - as the second evaluation of that evaluator (the first one: no failures, other values), with unreferenced filters in front
     if outcome != "rejected":
-        ev2 = TableEvaluator(o, c)
-        res, outcome2 = outcome_of(lambda: ensemble_evaluator(config, _Pert(ev2)).calculate(
+        from .c04 import _WarmTable
+        lead = 1 + (sc["n"] + sc["first"]) % 2
+        config2, *_ = build_sort(sc, lead=lead)
+        ev2 = _WarmTable(o, c, -objs[::-1].copy(), None if cons is None else -cons[::-1].copy())
+        ee2 = ensemble_evaluator(config2, _Pert(ev2))
+        outcome_of(lambda: ee2.calculate(np.ones(2), compute_functions=True, compute_gradients=False))
+        res, outcome2 = outcome_of(lambda: ee2.calculate(
             np.zeros(2), compute_functions=True, compute_gradients=True))
         w = value = None
         if res is not None:
